@@ -10,8 +10,8 @@ from ..effects import EffectAnalysis
 from ..model import AnalysisError, unparse
 from ..normalize import expanded, single_assignments
 from ..report import RuleResult
-from ._c15_sem import dependency_table, layers, silent_kinds
-from ._c15_sym import Executor
+from ._c15_sem import dependency_table, layers, requires_table, silent_kinds
+from ._c15_sym import Executor, literal_elements
 
 
 def scope_modules(p):
@@ -440,8 +440,10 @@ def rule_rules(ctx) -> RuleResult:
         "(a) dependency_requires_value reads the driving parameter's state from `enabled` exactly when the driver is "
         "`optional` (else from its boolean `value`), un-negated for dependencyType 'enabled' and negated otherwise — the "
         "rule the ui.json documentation states; (b) AssociationValidator resolves an identifier for every value kind "
-        "its signature and Workspace.get_entity can hand it (no kind falls into the silent `else: return`)",
-        floor=3,
+        "its signature and Workspace.get_entity can hand it (no kind falls into the silent `else: return`); (c) requires_value "
+        "combines the switches as documented (group off -> not required, else dependency, else the own `enabled` of an `optional` "
+        "form, else required): `enabled` decides nothing for a form without `optional`",
+        floor=4,
     )
     p = ctx.p
     uj = p.module("ui_json/utils.py")
@@ -451,14 +453,20 @@ def rule_rules(ctx) -> RuleResult:
     view = ctx.view(fn)
 
     def resolver(call):
-        # helpers of the same module (public or private) that are plain branching code are unfolded in place
+        # helpers of the same module (public or private) that are plain branching code are unfolded in place; a loop is accepted
+        # when it walks a literal table (hoisted constants substituted): the executor unrolls it exactly
         if isinstance(call.func, ast.Name):
             r = p.resolve_name(uj, call.func.id)
             if r and r[0] == "func" and r[1].node is not fn.node and r[1].module is uj and not r[1].node.decorator_list \
-                    and not (r[1].node.args.vararg or r[1].node.args.kwarg) \
-                    and not any(isinstance(x, (ast.For, ast.While, ast.Try, ast.With, ast.Yield, ast.YieldFrom, ast.Lambda, ast.ListComp,
-                                               ast.DictComp, ast.SetComp, ast.GeneratorExp)) for x in ast.walk(r[1].node)):
-                return r[1].node
+                    and not (r[1].node.args.vararg or r[1].node.args.kwarg):
+                node = ctx.view(r[1], inline=False).node
+                for x in ast.walk(node):
+                    if isinstance(x, ast.For) and literal_elements(x.iter) is not None and not x.orelse:
+                        continue
+                    if isinstance(x, (ast.For, ast.While, ast.Try, ast.With, ast.Yield, ast.YieldFrom, ast.Lambda, ast.ListComp,
+                                      ast.DictComp, ast.SetComp, ast.GeneratorExp)):
+                        return None
+                return node
         return None
 
     # (a) decided on the truth table of the function over its elementary conditions (paths unfolded, locals substituted):
@@ -483,6 +491,30 @@ def rule_rules(ctx) -> RuleResult:
     for construct, why in v.polarity + v.other:
         res.find("utils", "dependency_requires_value", construct, where,
                  "an 'enabled' dependency must require the value when the driver is on, a 'disabled' one when it is off (default 'enabled') — " + why)
+    # (c) the hierarchy of switches in requires_value (group > dependency > optional), same technique
+    rv = uj.functions.get("requires_value")
+    if rv is None:
+        raise AnalysisError("anchor ui_json.utils.requires_value not found")
+    deciders = {"group_requires_value": "group_req", "dependency_requires_value": "dep_req"}
+
+    def resolver_c(call):
+        return None if isinstance(call.func, ast.Name) and call.func.id in deciders else resolver(call) if getattr(call.func, "id", None) != rv.name else None
+
+    h = requires_table(ctx.view(rv, inline=False).node, deciders, resolver_c)
+    res.inst(f"requires_value: the form's own `enabled` decides only for a form that carries `optional` ({h.paths} paths, conditions "
+             f"{[k for k in h.leaves if not k.startswith('x:')]})", nontrivial=True, ok=not h.enabled_unguarded)
+    if h.enabled_unguarded:
+        res.find("utils", "requires_value", "the form's own `enabled` decides the requirement of a form without `optional` member", rv.where,
+                 "a mandatory form (no `optional`, no dependency, group not switched off) that carries `enabled: false` counts as not required: "
+                 f"None is accepted for it — differs for {h.enabled_unguarded}")
+    if h.full:
+        res.inst("requires_value: group switch off -> not required; else dependency rule; else own `enabled` if optional; else required",
+                 nontrivial=True, ok=not h.differs)
+        if h.differs:
+            res.find("utils", "requires_value", "the requirement differs from the documented group > dependency > optional hierarchy", rv.where,
+                     f"the switches are no longer combined as documented — differs for {h.differs}")
+    else:
+        res.notes.append("requires_value: group / dependency deciders are not elementary calls here — only the `enabled` guard was decided")
     # (b) AssociationValidator kinds
     V = p.cls("AssociationValidator")
     vf0 = V.methods.get("validate")
